@@ -83,6 +83,7 @@ type Machine struct {
 	uninterpUsed  map[string]bool
 	allocInfo     map[string]allocRec
 	reflectWrites []reflectWrite
+	assertObjs    map[string]*Obj
 	objFull       map[*Obj]Term // backing object of a converted string -> the full sequence term
 	knownRegion   func(fn, kind, label string) (string, bool)
 	regionEnv     *Env
@@ -116,7 +117,7 @@ func newMachine(prog *ssa.Program, pkg *ssa.Package, cf *ContractFile, pre *Prel
 	return &Machine{prog: prog, pkg: pkg, fset: prog.Fset, contracts: cf, prelude: pre, syms: newSymTab(),
 		facts: map[string][]Term{}, strLits: map[string]Term{}, typeConst: map[string]Term{},
 		globals: map[*ssa.Global]*Obj{}, globalMem: map[cellKey]Value{}, loopInfo: map[*ssa.Function]*LoopInfo{},
-		maxPaths: 20000, inlineMax: 6, warned: map[string]bool{}, ifacePayload: map[string]Value{}, provenance: map[*Obj]Term{}, sliceTok: map[*Obj]Term{}, runeStr: map[string]runeWindow{}, chanCaps: map[string]Term{}, divCache: map[string][2]Term{}, initCells: map[cellKey]Value{}, uninterpNames: map[string]string{}, uninterpUsed: map[string]bool{}, allocInfo: map[string]allocRec{}, objFull: map[*Obj]Term{}}
+		maxPaths: 20000, inlineMax: 6, warned: map[string]bool{}, ifacePayload: map[string]Value{}, provenance: map[*Obj]Term{}, sliceTok: map[*Obj]Term{}, runeStr: map[string]runeWindow{}, chanCaps: map[string]Term{}, divCache: map[string][2]Term{}, initCells: map[cellKey]Value{}, uninterpNames: map[string]string{}, uninterpUsed: map[string]bool{}, allocInfo: map[string]allocRec{}, objFull: map[*Obj]Term{}, assertObjs: map[string]*Obj{}}
 }
 
 type unsupported struct{ msg string }
